@@ -106,6 +106,39 @@ Resize(o, n, x, c, D, B) ==
     /\ Flow(With(o, c), {x}, B, {}, D)
 ResizeRefused(o, n, x, D, B) == Flow(seqs, {x}, B, {}, D)
 
+(* resize_with(n, f): growing appends the elements xs the closure produced, in the order it     *)
+(* produced them (exactly n - len of them); shrinking keeps the first n and calls f never        *)
+ResizeWith(o, n, xs, D, B) ==
+    LET s == seqs[o] IN
+    /\ IF n <= Len(s) THEN xs = <<>> ELSE Len(xs) = n - Len(s)
+    /\ Flow(With(o, IF n <= Len(s) THEN SubSeq(s, 1, n) ELSE s \o xs), Elems(xs), B, {}, D)
+(* refused: the content stays; whatever the closure produced meanwhile is destroyed *)
+ResizeWithRefused(o, xs, D, B) == Flow(seqs, Elems(xs), B, {}, D)
+
+(* copy_from_slice(xs): the content becomes a copy of xs (Copy element types only) *)
+CopyFrom(o, xs) == ~acct /\ Flow(With(o, xs), {}, {}, {}, <<>>)
+
+(* a new object o2 made by a sized constructor: n elements carrying the value of x *)
+NewSized(o2, n, x, c, D, B) ==
+    /\ o2 \notin DOMAIN seqs
+    /\ Len(c) = n /\ \A i \in 1..n : c[i][1] = x[1] /\ (acct => c[i] \in B \cup {x})
+    /\ Flow(With(o2, c), {x}, B, {}, D)
+NewSizedRefused(x, D, B) == Flow(seqs, {x}, B, {}, D)
+(* a new empty object o2 (a second vector carved from the same allocator) *)
+NewEmpty(o2, D, B) == o2 \notin DOMAIN seqs /\ Flow(With(o2, <<>>), {}, B, {}, D)
+(* an object that is opened with a content it did not get through this trace (a file written   *)
+(* earlier): only as the first event of a run, only for Copy element types                     *)
+Adopt(o, c) == ~acct /\ seqs[o] = <<>> /\ ever = {} /\ Flow(With(o, c), {}, {}, {}, <<>>)
+
+(* compare(a..b, o2): is self[a..b] equal to the first b - a elements of o2; an empty range is *)
+(* equal to anything; a range that does not fit must be refused                                *)
+Compare(o, o2, a, b, r) ==
+    /\ o2 \in DOMAIN seqs
+    /\ IF a >= b THEN r = TRUE
+       ELSE /\ b <= Len(seqs[o]) /\ b - a <= Len(seqs[o2])
+            /\ r = (SubSeq(seqs[o], a + 1, b) = SubSeq(seqs[o2], 1, b - a))
+    /\ UNCHANGED ownvars
+
 (* extend by moving the elements xs in *)
 ExtendMove(o, xs, D, B) == Flow(With(o, seqs[o] \o xs), Elems(xs), B, {}, D)
 (* extend_from_slice: xs stay with the caller, clones of them are appended (c = reported content) *)
@@ -149,7 +182,7 @@ DropContainer(o, D, B) == o \in DOMAIN seqs /\ Flow(Without(o), {}, B, {}, D)
 
 (* ---- observation of one object after a call -------------------------------- *)
 (* p = [len, c (as_slice), has_it, it (iteration), has_get, gets (get(0..len), the last one    *)
-(*      out of range), cap]                                                                    *)
+(*      out of range), cap, views (the content through every twin reader), alt_len, alt_cap]   *)
 ObsSeq(s, p) ==
     /\ p.len = Len(s)
     /\ p.c = s
@@ -157,6 +190,11 @@ ObsSeq(s, p) ==
     /\ p.has_get => /\ Len(p.gets) = Len(s) + 1
                     /\ \A i \in 1..Len(p.gets) : p.gets[i] = (IF i <= Len(s) THEN Some(s[i]) ELSE None)
     /\ p.cap >= Len(s)
+    (* every twin reader (as_mut_slice, iter_mut, raw pointer, get_unchecked, Index ...) shows the same *)
+    /\ \A i \in 1..Len(p.views) : p.views[i] = s
+    (* twins of len() (len_usize, stats().len, is_empty) and of capacity() *)
+    /\ \A i \in 1..Len(p.alt_len) : p.alt_len[i] = Len(s)
+    /\ \A i \in 1..Len(p.alt_cap) : p.alt_cap[i] = p.cap
 
 (* ---- properties of the contract itself (checked by MC_Seq) ------------------ *)
 OwnershipInv == acct => (alive = Contents(seqs) /\ Disjoint(seqs) /\ alive \subseteq ever)
